@@ -48,7 +48,7 @@ def accepted_corpus(chk):
     except facts.EngineError as e:
         chk.fail("R13.6", "corpus:type-checks", "engines/fixtures/src", "the derive corpus is rejected: %s" % str(e)[-1500:], None, kind="ENGINE")
         return
-    d = _json.load(open(mirp))
+    d = facts.load_json_canonical(mirp)
     derived = [i for i in d["impls"] if i["trait"] == "scale_info::TypeInfo" and (i.get("expn") or [{}])[0].get("kind") == "Derive"]
     n = len(derived)
     g = len([1 for i in derived if d["types"][i["self_ty"]].get("a")])
